@@ -139,6 +139,53 @@ fact('q_beginRead_shape', 'bool', coq_bool(
     has(br, r'if\s*\(\s*r\s*<\s*_queue->dataEnd\s*\)\s*\{\s*return\s+ReadResult\s*\{\s*buffer\s*\(\s*\)\s*\+\s*r\s*,\s*_queue->dataEnd\s*-\s*r\s*,\s*buffer\s*\(\s*\)\s*,\s*w\s*\}\s*;\s*\}\s*return\s+ReadResult\s*\{\s*buffer\s*\(\s*\)\s*,\s*w\s*,\s*nullptr\s*,\s*0\s*\}\s*;')))
 fact('q_endRead_shape', 'bool', coq_bool(has(er, r'_queue->readIndex\.store\s*\(\s*_readEnd\s*,')))
 
+# ---------------------------------------------------------------- Session / SessionWriter / macros (C02 C03 C10 C11 C13 C19)
+se = src('include/binlog/Session.hpp'); sw = src('include/binlog/SessionWriter.hpp')
+cse = src('include/binlog/create_source_and_event.hpp'); csi = src('include/binlog/create_source_and_event_if.hpp')
+LOCK = r'^\s*\{\s*std::lock_guard<\s*std::mutex\s*>\s+lock\s*\(\s*_mutex\s*\)\s*;'
+def locked(fn_re): return has(body_of(se, fn_re), LOCK)
+locks = {'createChannel': r'Session::createChannel\s*\(', 'setChannelWriterId': r'Session::setChannelWriterId\s*\(', 'setChannelWriterName': r'Session::setChannelWriterName\s*\(',
+         'addEventSource': r'Session::addEventSource\s*\(', 'setClockSync': r'Session::setClockSync\s*\(', 'consume': r'Session::ConsumeResult\s+Session::consume\s*\(',
+         'reconsumeMetadata': r'Session::ConsumeResult\s+Session::reconsumeMetadata\s*\('}
+for name, rx in locks.items(): fact('sess_locks_' + name, 'bool', coq_bool(locked(rx)))
+co = body_of(se, locks['consume'])
+fact('sess_fence_after_closed_test', 'bool', coq_bool(has(co, r'const\s+bool\s+isClosed\s*=\s*\(\s*channelptr\.use_count\s*\(\s*\)\s*==\s*1\s*\)\s*;\s*std::atomic_thread_fence\s*\(\s*std::memory_order_(acquire|acq_rel|seq_cst)\s*\)\s*;.*reader\.beginRead\s*\(')))
+def pos(text, pat):
+    m = re.search(pat, text, re.S); return m.start() if m else -1
+order = [pos(co, r'if\s*\(\s*_consumeClockSync\s*\)\s*\{\s*out\.write\s*\(\s*_clockSync\.data'), pos(co, r'out\.write\s*\(\s*_sources\.data\s*\(\s*\)\s*\+\s*_sourcesConsumePos\s*,\s*sourceWriteSize\s*\)'),
+         pos(co, r'_sourcesConsumePos\s*\+=\s*sourceWriteSize'), pos(co, r'for\s*\(\s*std::shared_ptr<\s*Channel\s*>\s*&\s*channelptr\s*:\s*_channels\s*\)'),
+         pos(co, r'isClosed\s*='), pos(co, r'reader\.beginRead\s*\('), pos(co, r'ch\.writerProp\.batchSize\s*=\s*data\.size\s*\(\s*\)'),
+         pos(co, r'consumeSpecialEntry\s*\(\s*ch\.writerProp\s*,\s*out\s*\)'), pos(co, r'out\.write\s*\(\s*data\.buffer1'), pos(co, r'out\.write\s*\(\s*data\.buffer2'),
+         pos(co, r'reader\.endRead\s*\('), pos(co, r'if\s*\(\s*isClosed\s*\)\s*\{\s*channelptr\.reset\s*\(\s*\)'), pos(co, r'_channels\.erase\s*\(\s*std::remove_if\s*\(')]
+fact('sess_consume_order', 'bool', coq_bool(all(p >= 0 for p in order) and order == sorted(order) and co.count('out.write') == 4))
+fact('sess_create_appends', 'bool', coq_bool(has(body_of(se, locks['createChannel']), r'_channels\.push_back\s*\(\s*std::make_shared<\s*Channel\s*>') and has(body_of(se, locks['createChannel']), r'return\s+_channels\.back\s*\(\s*\)')))
+ads = body_of(se, locks['addEventSource'])
+fact('sess_source_id_under_lock', 'bool', coq_bool(has(ads, r'eventSource\.id\s*=\s*_nextSourceId\s*;') and has(ads, r'return\s+_nextSourceId\+\+\s*;')))
+fact('sess_metadata_single_write', 'bool', coq_bool(has(ads, r'_specialEntryBuffer\.clear\s*\(\s*\)\s*;\s*serializeSizePrefixedTagged\s*\(\s*eventSource\s*,\s*_specialEntryBuffer\s*\)\s*;\s*_sources\.write\s*\(\s*_specialEntryBuffer\.data\s*\(\s*\)\s*,\s*_specialEntryBuffer\.ssize\s*\(\s*\)\s*\)') and
+    has(body_of(se, locks['setClockSync']), r'_specialEntryBuffer\.clear\s*\(\s*\)\s*;\s*serializeSizePrefixedTagged\s*\(\s*clockSync\s*,\s*_specialEntryBuffer\s*\)\s*;\s*_clockSync\.write\s*\(\s*_specialEntryBuffer\.data\s*\(\s*\)\s*,\s*_specialEntryBuffer\.ssize\s*\(\s*\)\s*\)\s*;\s*_consumeClockSync\s*=\s*true')))
+rc = body_of(se, locks['reconsumeMetadata'])
+fact('sess_reconsume_shape', 'bool', coq_bool(has(rc, r'out\.write\s*\(\s*_clockSync\.data\s*\(\s*\)\s*,\s*_clockSync\.ssize\s*\(\s*\)\s*\)\s*;.*out\.write\s*\(\s*_sources\.data\s*\(\s*\)\s*,\s*_sourcesConsumePos\s*\)') and rc.count('out.write') == 2 and '_sourcesConsumePos =' not in rc and '_sourcesConsumePos +=' not in rc))
+def order_in(text, pat):
+    m = re.search(pat, text, re.S)
+    if not m: return 99
+    mo = re.search(r'std::memory_order_(\w+)', m.group(0)); return ORD.get(mo.group(1), 99) if mo else 5
+fact('sev_load_order', 'N', '%d%%N' % order_in(body_of(se, r'Severity\s+Session::minSeverity\s*\(\s*\)\s*const'), r'_minSeverity\.load\s*\([^;]*\)'))
+fact('sev_store_order', 'N', '%d%%N' % order_in(body_of(se, r'void\s+Session::setMinSeverity\s*\('), r'_minSeverity\.store\s*\([^;]*\)'))
+fact('sev_is_atomic', 'bool', coq_bool(has(se, r'std::atomic<\s*Severity\s*>\s+_minSeverity')))
+fact('macro_if_guards_everything', 'bool', coq_bool(has(csi, r'#define\s+BINLOG_CREATE_SOURCE_AND_EVENT_IF\s*\(\s*writer\s*,\s*severity\s*,\s*category\s*,\s*clock\s*,\s*\.\.\.\s*\)\s*\\\s*do\s*\{\s*\\\s*if\s*\(\s*severity\s*>=\s*writer\.session\s*\(\s*\)\.minSeverity\s*\(\s*\)\s*\)\s*\\\s*\{\s*\\\s*BINLOG_CREATE_SOURCE_AND_EVENT\s*\(\s*writer\s*,\s*severity\s*,\s*category\s*,\s*clock\s*,\s*__VA_ARGS__\s*\)\s*;\s*\\\s*\}\s*\\\s*\}\s*while\s*\(\s*false\s*\)')))
+fact('macro_registers_then_stores_sid', 'bool', coq_bool(has(cse, r'static\s+std::atomic<\s*std::uint64_t\s*>\s+_binlog_sid\s*\{\s*0\s*\}\s*;.*_binlog_sid\.load\s*\(.*if\s*\(\s*_binlog_sid_v\s*==\s*0\s*\).*_binlog_sid_v\s*=\s*writer\.session\s*\(\s*\)\.addEventSource\s*\(.*_binlog_sid\.store\s*\(\s*_binlog_sid_v\s*\)\s*;.*addEventIgnoreFirst\s*\(\s*writer\s*,\s*_binlog_sid_v\s*,\s*clock')))
+adv = src('include/binlog/advanced_log_macros.hpp'); bas = src('include/binlog/basic_log_macros.hpp')
+fam = all(has(adv, r'#define\s+BINLOG_%s_WC\s*\(\s*writer\s*,\s*category\s*,\s*\.\.\.\s*\)\s*\\\s*BINLOG_CREATE_SOURCE_AND_EVENT_IF\s*\(\s*\\\s*writer\s*,\s*binlog::Severity::%s\s*,' % (a, b))
+          for a, b in (('TRACE', 'trace'), ('DEBUG', 'debug'), ('INFO', 'info'), ('WARN', 'warning'), ('ERROR', 'error'), ('CRITICAL', 'critical')))
+fam2 = all(has(adv + bas, r'#define\s+BINLOG_%s%s\s*\([^)]*\)\s*\\?\s*BINLOG_%s_WC\s*\(' % (a, sfx, a)) for a in ('TRACE', 'DEBUG', 'INFO', 'WARN', 'ERROR', 'CRITICAL') for sfx in ('', '_C', '_W'))
+fact('macro_families_use_if', 'bool', coq_bool(fam and fam2))
+rp = body_of(sw, r'bool\s+SessionWriter::replaceChannel\s*\(')
+fact('writer_replace_shape', 'bool', coq_bool(has(rp, r'newCapacity\s*=\s*\(\s*std::max\s*\)\s*\(\s*_qw\.capacity\s*\(\s*\)\s*,\s*2\s*\*\s*minQueueCapacity\s*\)') and
+    has(rp, r'WriterProp\s+wp\s*\{\s*_channel->writerProp\.id\s*,\s*_channel->writerProp\.name\s*,\s*0\s*\}\s*;.*_channel\s*=\s*_session->createChannel\s*\(\s*newCapacity\s*,\s*std::move\s*\(\s*wp\s*\)\s*\)\s*;\s*_qw\s*=\s*detail::QueueWriter\s*\(\s*_channel->queue\s*\(\s*\)\s*\)')))
+ae = body_of(sw, r'bool\s+SessionWriter::addEvent\s*\(')
+fact('writer_addEvent_shape', 'bool', coq_bool(has(ae, r'totalSize\s*=\s*size\s*\+\s*sizeof\s*\(\s*std::uint32_t\s*\)\s*;\s*if\s*\(\s*!\s*_qw\.beginWrite\s*\(\s*totalSize\s*\)\s*\)\s*\{\s*replaceChannel\s*\(\s*totalSize\s*\)\s*;\s*if\s*\(\s*!\s*_qw\.beginWrite\s*\(\s*totalSize\s*\)\s*\)\s*\{\s*return\s+false\s*;\s*\}\s*\}') and
+    has(ae, r'mserialize::serialize\s*\(\s*std::uint32_t\s*\(\s*size\s*\)\s*,\s*_qw\s*\).*_qw\.endWrite\s*\(\s*\)\s*;\s*return\s+true')))
+
 out = ['(* GENERATED by tools/srcfacts.py from %s -- do not edit *)' % vlib.REPO,
        'From Coq Require Import List NArith String.', 'Import ListNotations.', 'Local Open Scope string_scope.', ''] + facts + ['']
 os.makedirs(os.path.join(vlib.COQ, 'Gen'), exist_ok=True)
